@@ -10,6 +10,7 @@ import (
 	"os"
 	"strings"
 	"sync"
+	"unicode/utf8"
 
 	"github.com/ddddddO/gtree"
 )
@@ -145,10 +146,48 @@ func runC14(ctx *Ctx) *Report {
 			cases = append(cases, c)
 		}
 	}
+	// seeded stream: random forests, names and notations, a reader that fails at a random offset
+	for k := 0; k < pick(ctx.Thorough, 8000, 800); k++ {
+		f := randForest(ctx.Rng, 1+ctx.Rng.Intn(10), []string{"plain", "plain", "unicode", "quotes", "blanks", "bullets"}, 3, rep.Dist)
+		sp := randSpelling(ctx.Rng)
+		doc := spell(f, sp)
+		wellFormed := representable(f, sp)
+		at := ctx.Rng.Intn(len(doc) + 1)
+		kind := kinds[ctx.Rng.Intn(len(kinds))]
+		var c Case
+		switch kind {
+		case "iter-text", "batch-text", "iter-dry":
+			c = newCase("out")
+			c.Mode = kind
+			c.Exts = extLists[ctx.Rng.Intn(len(extLists))]
+		case "json", "yaml":
+			c = newCase("outf")
+			c.Format = kind
+			if !utf8.Valid(doc[:at]) {
+				c.Format = "yaml"
+				c.ErrOnly = true
+			}
+		case "walk":
+			c = newCase("walk")
+		case "mkdir":
+			c = newCase("mkdir")
+			c.Target = "t"
+		case "verify":
+			c = newCase("verify")
+			c.Target = "t"
+		}
+		c.Doc, c.DocText, c.Fail = hx(doc[:at]), docText(doc[:at]), true
+		c.Chunk = []int{0, 1, 3, 7}[ctx.Rng.Intn(4)]
+		c.Note = "seeded: reader fails after " + fmtInt(at) + " of " + fmtInt(len(doc)) + " bytes"
+		if !wellFormed {
+			c.Note = "seeded, document not well-formed: the model decides which error comes first"
+		}
+		cases = append(cases, c)
+	}
 	parallel(cases, ctx.Workers, func(m *Model, c Case) {
 		diffs, realv := runCaseR(m, c)
 		// direct: a well-formed document cut short by a failing reader must report the reader's error
-		if resultClass(realv) != "reader" {
+		if resultClass(realv) != "reader" && !strings.Contains(c.Note, "not well-formed") {
 			diffs = append(diffs, Diff{What: "the reader failed but the call did not return the reader's error", Real: realv, Model: "e=reader"})
 		}
 		rep.Record(c, caseKey(c), len(c.Doc) > 8, diffs)
@@ -192,6 +231,27 @@ func runC14(ctx *Ctx) *Report {
 				}
 			}
 		}
+	}
+	for k := 0; k < pick(ctx.Thorough, 6000, 600); k++ {
+		f := randForest(ctx.Rng, 1+ctx.Rng.Intn(10), []string{"plain", "plain", "unicode", "quotes", "blanks"}, 3, rep.Dist)
+		if !representable(f, plainSpelling) {
+			continue
+		}
+		doc := spell(f, plainSpelling)
+		c := newCase("wfault")
+		c.Mode = []string{"text", "batch-text", "dry", "json", "yaml"}[ctx.Rng.Intn(5)]
+		c.Doc, c.DocText, c.WFail, c.Exts = hx(doc), docText(doc), ctx.Rng.Intn(3*f[0].Size()+3), extLists[ctx.Rng.Intn(len(extLists))]
+		if ctx.Rng.Intn(3) == 0 {
+			c.Short = 1 + ctx.Rng.Intn(4)
+		}
+		switch r := ctx.Rng.Intn(6); {
+		case r == 0 && len(f) == 1:
+			c.FromRoot, c.Tree = true, f[0].Enc()
+		case r == 1 && c.Mode != "batch-text":
+			c.Massive = true
+		}
+		c.Note = "seeded"
+		fcases = append(fcases, c)
 	}
 	parallel(fcases, ctx.Workers, func(m *Model, c Case) {
 		diffs := runWFault(c)
